@@ -16,10 +16,11 @@ from .r import HEAD, TAIL
 
 PRE = '!(*old({w})).failed() && (*old({w})).complete()'
 POST = 'res is Ok ==> !(*final({w})).failed() && (*final({w})).complete()'
+# ("the error is the Io variant" cannot be stated here: Verus does not see through the From conversion of `?`; the replay harness checks it)
 
 MOD_HEAD = '''pub mod zeep {
     use vstd::prelude::*;
-    use std::{io, rc::Rc, collections::HashMap, fmt::Display};
+    use std::{io, rc::Rc, collections::HashMap, fmt::{Display, Formatter}};
     use crate::iospec::*;
     use crate::inflector::cases::{pascalcase::to_pascal_case, snakecase::to_snake_case};
     use crate::url_standin::Url;
@@ -57,10 +58,11 @@ class UnitW(Unit):
         self._trusted = []
         from .r import prelude
         self._trusted += prelude(out, ['ax-display-ref', 'stdspec-as-deref', 'stdspec-bytelen', 'stdspec-as-bytes', 'stdspec-contains'])
-        self._trusted += sections(out, 'dep_io.rs', ['io-write-ghost'])
+        self._trusted += sections(out, 'dep_io.rs', ['io-write-ghost', 'fmt-ghost'])
         self._trusted += sections(out, 'dep_misc.rs', ['inflector', 'url', 'roxmltree-error'])
         out.spec(MOD_HEAD)
-        self.emit_types(out, G)
+        self._probe = probe
+        self.emit_types(out, G, verify_display=True)
         self.emit_writers(out, G, probe)
         out.spec('}\n' + TAIL)
         # all extracted items live in ONE module here, so crate-relative paths of zeep-lib are flattened to the bare item name
@@ -76,7 +78,7 @@ class UnitW(Unit):
         return out
 
     # ------------------------------------------------------------------------------------------
-    def emit_types(self, out: Out, G: Gen):
+    def emit_types(self, out: Out, G: Gen, verify_display: bool = False):
         G.verbatim(out, 'error.rs', 'type', 'WriterResult')
         G.verbatim(out, 'error.rs', 'enum', 'WriterError')
         self._trusted += sections(out, 'W_glue.rs', ['thiserror-from'])
@@ -85,7 +87,27 @@ class UnitW(Unit):
         G.verbatim(out, 'model/field.rs', 'struct', 'Field')
         G.verbatim(out, 'model/field.rs', 'enum', 'RustFieldType')
         G.verbatim(out, 'model/field.rs', 'struct', 'OtherRustType')
-        self._trusted += sections(out, 'W_glue.rs', ['rustfieldtype-display'])
+        if not verify_display:
+            # units that only reuse the data model (D, F) keep the contract-free stand-in
+            self._trusted += sections(out, 'W_glue.rs', ['rustfieldtype-display'])
+        else:
+            self._emit_display(out, G)
+        self._emit_types_rest(out, G)
+
+    def _emit_display(self, out: Out, G: Gen):
+        # `impl Display for RustFieldType` is formatted straight into the sink by the writers: it must propagate a failed piece
+        # (contract over a ghost flag of the Formatter), otherwise io::Write::write_fmt turns a sink failure into Ok
+        out.spec('''    impl vstd::std_specs::fmt::DisplaySpecImpl for RustFieldType {
+        open spec fn fmt_req(&self, f: &core::fmt::Formatter<'_>) -> bool { true }
+    }''')
+        dim = G.top('model/field.rs', 'impl', r'Display for RustFieldType')
+        open_container(out, dim, SRC + 'model/field.rs')
+        splice_fn(out, child(dim, 'fn', 'fmt'), SRC + 'model/field.rs', 'field::RustFieldType::fmt',
+                  ensures=[('display-propagates-failure', 'res is Ok ==> crate::fmtspec::fmt_failed(final(f)) == crate::fmtspec::fmt_failed(old(f))')],
+                  origin={'display-propagates-failure': 'property'}, probe=self._probe, sink='f')
+        close_container(out, dim, SRC + 'model/field.rs')
+
+    def _emit_types_rest(self, out: Out, G: Gen):
         G.verbatim(out, 'model/structures/mod.rs', 'enum', 'RustType')
         G.verbatim(out, 'model/structures/complex.rs', 'struct', 'ComplexProps')
         G.verbatim(out, 'model/structures/simple.rs', 'struct', 'SimpleProps')
